@@ -209,13 +209,14 @@ class Lib:
     def __init__(self):
         from . import bridge  # noqa: F401
         from proof_generation.tautology import Tautology
+        self._cls = Tautology
         self.t = Tautology()
-        self.base = len(self.t._axioms)
+        self.base = len(self.t.get_axioms())
 
     def reset(self):
         """forget the premise axioms of earlier instances (the module of one instance declares only its own premises;
         otherwise the accumulated axioms overflow the 256 memory slots -- an artefact of the harness, not of the library)"""
-        del self.t._axioms[self.base:]
+        self.t = self._cls()
 
     def premise(self, pat):
         self.t.add_axiom(pat)
@@ -462,7 +463,7 @@ def nested_chunk(args):
         th = check_instance(lib, pname, f, spec, b, env, False, tmp)
         if th is None:
             continue
-        keep = list(lib.t._axioms[lib.base:])
+        keep = lib.t.get_axioms()[lib.base:]
         conc = bridge.expand(th.conc)
         for cname, (g, cspec, cb) in specs.items():
             pre, concl = cspec
